@@ -35,7 +35,10 @@ RULE = (
     "order, a recorded do-nothing may be absent; is_compound <=> skip_to is a chain); (b) raw trees assembled bottom-up "
     "from bare LeafRelations with operation._finish_apply / direct binary nodes (no Select anywhere), all sequences up "
     "to the depth bound incl. chain and join nodes with raw operands: conform(raw) evaluates to the reference rows of "
-    "the raw sequence on SQLite, conform(conform(raw)) is conform(raw), markers coherent; non-trivial = tree has >= 2 "
+    "the raw sequence on SQLite, conform(conform(raw)) is conform(raw), markers coherent; (b2) raw chain / join nodes "
+    "over every ordered pair of 13 API-built (already conformed) operands incl. sorted, sliced, deduplicated and compound "
+    "ones: same oracle, plus refusal where an operand carries a sort without a slice and agreement with the tree the "
+    "factory would build; non-trivial = tree has >= 2 "
     "operations; distinct = distinct tree digests"
 )
 
@@ -252,6 +255,112 @@ def _raw_work(progs):
     return {"stats": stats, "violations": viols, "keys": keys}
 
 
+# (b2) raw binary nodes whose operands were themselves built through the API (already conformed Selects)
+API_OPERANDS = (
+    ("X",),
+    ("X", ("sort", ((R("c"), True), (R("a"), True), (R("b"), True))), ("slice", 0, 2)),
+    ("X", ("slice", 2, None)),
+    ("X", ("dedup",)),
+    ("X", ("sel", ("gt", R("a"), L(1)))),
+    ("X", ("proj", ("a", "b"))),
+    ("Y",),
+    ("Y", ("sort", ((R("c"), False),)), ("slice", 1, 3)),
+    ("Y", ("chain", ("X",))),
+    ("Y", ("proj", ("a", "b")), ("dedup",)),
+    ("K",),
+    ("K", ("slice", 1, None)),
+    ("K", ("sort", ((R("d"), True),))),
+)
+
+
+def _api_pairs_work(pairs):
+    w = spaces.sql_world()
+    scen = w.scenario()
+    viols = []
+    stats = {"pairs": 0, "ref_rejected": 0, "ooc": 0, "conform_refused_order_loss": 0, "compared": 0, "weak": 0}
+    keys = set()
+    for kind, pa, pb in pairs:
+
+        def bad(k, detail, rel=None):
+            v = {
+                "kind": k,
+                "detail": detail,
+                "case": {"api_pair": [kind, A.to_jsonable(pa), A.to_jsonable(pb)]},
+                "program_str": f"raw {kind} of API-built ({A.fmt_prog(pa)}) and ({A.fmt_prog(pb)})",
+            }
+            v["finding"] = findings.attribute("C17", v, {"rel": rel})
+            viols.append(v)
+
+        from ..refmodel import ref_run
+
+        try:
+            va = ref_run(pa, scen)
+            val = ref_apply(va, (kind, pb) if kind == "chain" else ("join", pb, None, False), scen, None)
+        except RefReject as rj:
+            if rj.classes == {"RelationalAlgebraError"}:
+                val = None
+            else:
+                stats["ref_rejected"] += 1
+                continue
+        except RefOOC:
+            stats["ooc"] += 1
+            continue
+        ctx = Ctx(w)
+        a, b = ctx.build(pa), ctx.build(pb)
+        stats["pairs"] += 1
+        if kind == "chain":
+            raw = Chain()._finish_apply(a, b)
+        else:
+            common = frozenset(t for t in a.columns & b.columns if t.is_key)
+            raw = Join(Predicate.literal(True), min_columns=common, max_columns=common)._finish_apply(a, b)
+        eng = ctx.engines["s"]
+        try:
+            c = eng.conform(raw)
+        except RelationalAlgebraError as e:
+            if type(e) is RelationalAlgebraError:
+                stats["conform_refused_order_loss"] += 1
+                if val is not None:
+                    bad("conform-refused", f"conform() refused a tree whose operands carry no pending sort: {e}")
+                continue
+            bad("conform-raised", f"{type(e).__name__}: {e}")
+            continue
+        except Exception as e:  # noqa: BLE001
+            bad("conform-raised", f"{type(e).__name__}: {e}")
+            continue
+        keys.add(walk.digest(walk.key(c)))
+        if val is None:
+            bad("order-loss-not-refused", f"conform() accepted a binary node over an operand with a sort and no slice: {c}", c)
+            continue
+        if eng.conform(c) is not c:
+            bad("conform-not-idempotent", f"conform(conform(raw)) is a different object for {c}", c)
+        for node, why in tree_incoherences(c):
+            bad("select-incoherent", why, c)
+            break
+        # the API would have built the same thing
+        try:
+            api = ctx.apply(a, (kind, pb) if kind == "chain" else ("join", pb, None, False))
+            if kind == "chain" and walk.key(api) != walk.key(c):
+                bad("conform-differs-from-api", f"conform(raw) = {c} but the factory builds {api}", c)
+        except Exception:  # noqa: BLE001
+            pass
+        obs = SqlObs(c)
+        if obs.failed:
+            phase, e = obs.failure()
+            bad(f"{phase}-raised", f"{type(e).__name__}: {str(e)[:200]}", c)
+            continue
+        for got in obs.rows:
+            strength, ok, detail = compare(val, got, force_bag=True)
+            stats["weak" if strength == "weak" else "compared"] += 1
+            if not ok:
+                bad("rows", f"{detail}: expected {list(val.rows)[:6]} got {got[:6]} sql={obs.text[:200]}", c)
+                break
+    return {"stats": stats, "violations": viols, "keys": keys}
+
+
+def api_pairs():
+    return [(k, a, b) for k in ("chain", "join") for a in API_OPERANDS for b in API_OPERANDS]
+
+
 def raw_programs(depth):
     out = []
     for d in range(1, depth + 1):
@@ -270,8 +379,16 @@ def run(tier, seed):
         keys |= r["keys"]
         for k, v in r["stats"].items():
             stats[k] = stats.get(k, 0) + v
-    viols = res["violations"] + [v for r in results for v in r["violations"]]
+    pair_results = par.pmap(_api_pairs_work, par.chunks(api_pairs(), 32))
+    pstats = {}
+    for r in pair_results:
+        keys |= r["keys"]
+        for k, v in r["stats"].items():
+            pstats[k] = pstats.get(k, 0) + v
+    viols = res["violations"] + [v for r in results for v in r["violations"]] + [v for r in pair_results for v in r["violations"]]
     cov = coverage_from(res, RULE)
+    cov["raw_binary_over_api_operands"] = dict(pstats, operands=[A.fmt_prog(p) for p in API_OPERANDS])
+    stats["raw_trees"] += pstats["pairs"]
     cov["raw"] = dict(stats, programs=len(progs), distinct_conformed_trees=len(keys), ops=[A.fmt_op(o) for o in RAW_OPS])
     cov["states"] += len(keys)
     cov["transitions"] += stats["raw_trees"]
@@ -292,4 +409,7 @@ def replay(doc):
     c = doc["case"]
     if "raw_program" in c:
         return _raw_work([A.from_jsonable(c["raw_program"])])["violations"]
+    if "api_pair" in c:
+        k, a, b = c["api_pair"]
+        return _api_pairs_work([(k, A.from_jsonable(a), A.from_jsonable(b))])["violations"]
     return replay_case(C17(), c)
